@@ -172,11 +172,12 @@ K = {"T1": ["T1", False], "T2": ["T2", False], "T3": ["T3", False], "T1u": ["T1"
      "Ru": ["R", True], "Pu": ["P", True], "Tu": ["T", True], "Su": ["S", True]}
 
 
-def lines_gen(L, D, E, kinds, unit="  ", base=0, free=(), ws=(), blank=True, suffix="", simulate=None):
+def lines_gen(L, D, E, kinds, unit="  ", base=0, free=(), ws=(), blank=True, suffix="", simulate=None, code_a="", code_b="",
+              mb=False):
     from vlib import TlaSet
     g = {"base": "GenLines", "constraint": "Feasible",
          "consts": {"L": L, "D": D, "E": E, "Kinds": TlaSet([K[k] for k in kinds]), "Unit": Chars(unit), "Base": base,
-                    "FreeInd": TlaSet(list(free)), "WsLens": TlaSet(list(ws)), "Blank": blank, "Suffix": Chars(suffix),
+                    "FreeInd": TlaSet(list(free)), "WsLens": TlaSet(list(ws)), "Blank": blank, "Suffix": Chars(suffix), "CodeA": Chars(code_a), "CodeB": Chars(code_b), "MbCode": mb,
                     "PastTo": Chars(PAST), "FutureTo": Chars(FUTURE),
                     "Tos": [Chars(t) for t in TOS], "Names": [Chars(n) for n in MNAMES]}}
     if simulate:
@@ -212,6 +213,7 @@ def block_jobs(ctx, invariants, ops, lite=False):
                 lines_gen(6 - d, 2, 2, ["R", "P"], base=1, blank=False),
                 lines_gen(5, 2, 2, ["R", "P"], unit="\t", base=1, ws=(1,)),
                 lines_gen(5, 2, 2, ["T", "F"], unit="    ", base=0, suffix="é"),
+                lines_gen(5 if lite else 6, 2, 2, ["R", "P"], base=1, ws=(2,), mb=True),       # lines of multi-byte characters only
                 lines_gen(14, 3, 5, ["R", "P", "S", "U", "T", "F"], ws=(2,), base=ctx.seed % 2, simulate=(15 if lite else 80, 14)),
                 dict(lines_gen(5 - d // 2, 2, 2, ["R", "P", "T"], ws=(2,)), cfg=html)]
         ctx.job("block", gens=gens, invariants=invariants, ops=ops, cfg={"ds": "<", "de": ">"}, nontrivial=has_ready)
@@ -220,7 +222,7 @@ def block_jobs(ctx, invariants, ops, lite=False):
         ("block-mixed", [lines_gen(8, 2, 3, ["R", "P", "S", "U"], ws=(2,))]),
         ("block-one", [lines_gen(10, 1, 1, ["R"], base=0, ws=(1,)), lines_gen(9, 1, 1, ["R"], base=1, ws=(1,))]),
         ("block-two", [lines_gen(11, 1, 2, ["R"], base=0, ws=()), lines_gen(10, 2, 2, ["R", "P"], base=1, ws=())]),
-        ("block-tab-mb", [lines_gen(7, 2, 2, ["R", "P"], unit="\t", base=1, ws=(1,)),
+        ("block-tab-mb", [lines_gen(7, 2, 2, ["R", "P"], unit="\t", base=1, ws=(1,)), lines_gen(8, 2, 2, ["R", "P"], base=1, ws=(2,), mb=True),
                           lines_gen(7, 2, 2, ["T", "F"], unit="    ", base=0, suffix="é")]),
         ("block-sim", [lines_gen(14, 3, 5, ["R", "P", "S", "U", "T", "F"], ws=(2,), base=ctx.seed % 2, simulate=(20000, 14))]),
         ("block-html", [dict(lines_gen(7, 2, 2, ["R", "P", "T"], ws=(2,)), cfg=html)]),
@@ -238,8 +240,11 @@ def unwrap_jobs(ctx, invariants, ops, lite=False):
                 lines_gen(6, 1, 1, ["Ru"], free=(0, 2), blank=False),
                 lines_gen(6 - d // 2, 2, 2, ["Ru", "R", "P"], free=(1,), blank=False),
                 lines_gen(10 - d, 2, 2, ["Ru"], blank=False),
+                lines_gen(11 if not lite else 8, 2, 3, ["Ru", "R"], blank=False),      # removed sibling before a nested pair
                 lines_gen(8 - d // 2, 2, 2, ["Ru", "Pu"], base=1, blank=False),
                 lines_gen(6, 1, 1, ["Tu"], unit="\t", free=(0, 2), blank=False, suffix="あ"),
+                lines_gen(6, 1, 1, ["Ru"], free=(0, 2), blank=False, base=1, code_b=" = 1"),       # interior blanks at the tag column
+                lines_gen(6, 1, 1, ["Ru"], unit="\t", free=(0, 2), blank=False, base=1, code_a=" "),
                 lines_gen(16, 3, 4, ["Ru", "R", "P", "Pu", "S"], free=(0, 1, 2), ws=(2,), simulate=(15 if lite else 80, 16))]
         ctx.job("unwrap", gens=gens, invariants=invariants, ops=ops, cfg=cfg, nontrivial=has_ready)
         return
@@ -247,8 +252,12 @@ def unwrap_jobs(ctx, invariants, ops, lite=False):
         ("unwrap-one", [lines_gen(8, 1, 1, ["Ru"], free=(0, 1, 2), blank=True), lines_gen(10, 1, 1, ["Ru"], free=(1,), blank=True)]),
         ("unwrap-mixed", [lines_gen(9, 2, 2, ["Ru", "R", "P"], free=(1,), blank=False)]),
         ("unwrap-nested", [lines_gen(13, 2, 2, ["Ru"], blank=False), lines_gen(11, 2, 2, ["Ru", "Pu"], base=1, blank=False),
+                           lines_gen(13, 2, 3, ["Ru", "R"], blank=False), lines_gen(12, 3, 4, ["Ru", "R", "P"], blank=False, base=1),
                            lines_gen(14, 3, 3, ["Ru"], blank=False)]),
         ("unwrap-tab", [lines_gen(8, 1, 1, ["Tu"], unit="\t", free=(0, 1, 2), blank=False, suffix="あ")]),
+        ("unwrap-interior-blanks", [lines_gen(8, 1, 1, ["Ru"], free=(0, 1, 2), blank=False, base=1, code_b=" = 1"),
+                                    lines_gen(8, 1, 1, ["Ru"], unit="\t", free=(0, 2), blank=False, base=1, code_a=" "),
+                                    lines_gen(9, 2, 2, ["Ru", "R"], unit="    ", free=(0,), blank=False, base=1, code_b=" = 1 ")]),
         ("unwrap-sim", [lines_gen(16, 3, 4, ["Ru", "R", "P", "Pu", "S"], free=(0, 1, 2), ws=(2,), simulate=(20000, 16))]),
     ]
     for (name, gens) in sets:
